@@ -176,15 +176,15 @@ func (h265dp *h265Depacketizer) writeFrame(rtpTimestamp uint32, frame *codec.Fra
 	nalType := (frame.Payload[0] >> 1) & 0x3f
 	switch nalType {
 	case hevc.NalVps:
-		if len(h265dp.meta.Vps) == 0 {
+		if len(h265dp.meta.Vps) == 0 || !h265dp.metaReady {
 			h265dp.meta.Vps = frame.Payload
 		}
 	case hevc.NalSps:
-		if len(h265dp.meta.Sps) == 0 {
+		if len(h265dp.meta.Sps) == 0 || !h265dp.metaReady {
 			h265dp.meta.Sps = frame.Payload
 		}
 	case hevc.NalPps:
-		if len(h265dp.meta.Pps) == 0 {
+		if len(h265dp.meta.Pps) == 0 || !h265dp.metaReady {
 			h265dp.meta.Pps = frame.Payload
 		}
 	}
